@@ -14,16 +14,18 @@
 //	                                   Compare(a,b) = the engine's documented ordering (NULL lowest)
 //	GenValue / Column.Pool             values are drawn from small per-column pools so that duplicates,
 //	                                   NULLs and range hits are frequent; edge values are always candidates
-//	Stmt (Insert/Upsert/Update/Delete) structured DML; Stmt.SQL(tableName) renders it for a table or its twin
-//	GenTx(rt, schema, opts)            one multi-statement transaction worth of DML
-//	Expr (Col, Lit, Cmp, And, Or, Not, IsNull, InList, Like, Between, Arith, Raw)
-//	                                   typed predicate grammar; Expr.SQL(); Eval(env) for the naive executor
+//	Stmt (Insert/Upsert/Update/Delete) structured DML; Stmt.SQL(twin) renders it for the table or for its twin
+//	GenStmt(rt, table, keys, opts)     one DML statement; KeySet tracks which primary keys are believed to exist
+//	Expr (Col, Lit, Const, Cmp, Bin, Not, IsNull, InList, Like, Between, Arith, SubQ)
+//	                                   typed predicate grammar; SQL(e) / e.Render(rc); Eval(env) for the naive executor
 //	Query                              SELECT AST: targets, FROM [HISTORY OF], USE INDEX ON, joins, WHERE,
 //	                                   GROUP BY/HAVING, ORDER BY, LIMIT/OFFSET, DISTINCT; Query.SQL()
-//	GenQuery(rt, schema, opts)         a query the grammar accepts and whose evaluation cannot fail row-dependently
+//	NewGen(rt, QueryOpts).GenQuery     a query the grammar accepts and whose evaluation cannot fail row-dependently;
+//	                                   GenPred draws a predicate; QueryOpts carries the exclusions of known findings
 //	DB                                 Open(dir, opts) / Reopen / Close; Exec, Begin, Query -> *Result
-//	Result                             column names + [][]Value; Multiset(), EqualMultiset, EqualSeq, SortedBy
+//	Result                             column names + [][]Value + index scanned; DiffMultiset, DiffSeq, Unsorted(keys), Project
 //	Naive(q, tables)                   nested-loop reference evaluation (returns definite and optional rows)
+//	RenderCtx / Access                 per table reference: twin table, forced index, derived table
 //
 // Everything random is a rapid draw; nothing here reads the clock or depends
 // on map iteration order.
